@@ -35,7 +35,10 @@ SCHEMA_SPEC = [
              ("end", ":date", ())]),
     ("edge", [("e-id", ":integer", (":key",)), ("parse-id", ":integer", (":key",)), ("e-name", ":string", ()),
               ("e-daughters", ":string", ()), ("e-alternates", ":string", ())]),
+    # same fields as note: Row objects can travel between the two relations (aliasing histories)
+    ("memo", [("n-id", ":integer", (":key",)), ("n-text", ":string", ())]),
 ]
+TWINS = {"note": "memo", "memo": "note"}
 NAMES = [n for n, _ in SCHEMA_SPEC]
 TINDEX = {n: i for i, n in enumerate(NAMES)}
 FIELDS = {n: [(f, dt) for f, dt, _ in fs] for n, fs in SCHEMA_SPEC}
@@ -192,6 +195,27 @@ class Spec:
         if k == "clear":
             del cur[:]
             return None
+        if k == "foreign":
+            return None          # another TestSuite object edits ITS copy of the rows: nothing changes here
+        if k == "alias":
+            # rows are values: reading them from a table and storing them elsewhere copies them
+            src = self.cur[st["src"]]
+            try:
+                got = src[st["si"]] if "si" in st else src[sl_of(st["ssl"])]
+            except IndexError:
+                return "IndexError"
+            except ValueError:
+                return "ValueError"
+            typed = (lambda r: [json.loads(c) for c in r])
+            op = st["op"]
+            if op == "append":
+                return self.table_step({"k": "append", "t": n, "row": typed(got)})
+            if op == "setitem":
+                return self.table_step({"k": "setitem", "t": n, "i": st["i"], "row": typed(got)})
+            if op == "extend":
+                return self.table_step({"k": "extend", "t": n, "rows": [typed(r) for r in got]})
+            if op == "setslice":
+                return self.table_step({"k": "setslice", "t": n, "sl": st["sl"], "rows": [typed(r) for r in got]})
         raise ValueError(k)
 
     def produced(self, st):
@@ -460,6 +484,9 @@ def with_obs(step, gen, n_guess=4):
     """attach the queries and the set of observed tables to a step"""
     if "t" in step:
         step["ot"] = [step["t"]]
+        for other in (TWINS.get(step["t"]), step.get("src")):
+            if other and other not in step["ot"]:
+                step["ot"].append(other)       # holders of possibly shared Row objects
         step["qs"] = gen.queries(step["t"], n_guess)
     else:
         step["ot"] = list(NAMES)
@@ -538,6 +565,9 @@ def random_history(rng, long=False):
     pool = [n for n in NAMES if n not in used]
     rng.shuffle(pool)
     used = used + pool[: max(0, ntab - len(used))]
+    for n in list(used):
+        if n in TWINS and TWINS[n] not in used and rng.random() < 0.7:
+            used.append(TWINS[n])
     sizes = {}
     for n in used:
         k = rng.choice([0, 0, 1, 2, 3, 3, 4, 5, 6])
@@ -589,6 +619,40 @@ def random_history(rng, long=False):
             nitems = sizes.get("item", 0)
             st = {"k": "process", "b": rng.choice([0, 0, 1, 2, 3, 5, 4 * nitems + 2, 1000]),
                   "gz": rng.random() < 0.3, "script": gen.script()}
+        # how the row values are passed: list / tuple / Row objects, the same Row object repeated,
+        # caller-side mutation of the passed lists afterwards
+        if st["k"] in ("append", "extend", "setitem", "setslice"):
+            st["form"] = rng.choice(["list", "list", "tuple", "row"])
+            if st["form"] == "list" and st["k"] in ("extend", "setslice") and rng.random() < 0.3:
+                st["mutate"] = True
+            if st["k"] in ("extend", "setslice") and len(st["rows"]) >= 2 and rng.random() < 0.15:
+                st["rows"] = [st["rows"][0] for _ in st["rows"]]
+                st["dup"] = True
+                st["form"] = rng.choice(["row", "list"])
+        # aliasing: rows taken from a table (same one, its twin relation) and stored again; a foreign suite
+        r2 = rng.random()
+        if r2 < 0.12:
+            twin = TWINS.get(t)
+            src = twin if (twin and rng.random() < 0.5) else t
+            op = rng.choice(["append", "extend", "extend", "setitem", "setslice"])
+            al = {"k": "alias", "t": t, "src": src, "op": op}
+            m = sizes.get(src, 3)
+            if op in ("append", "setitem"):
+                al["si"] = rng.randrange(-m, m) if m > 0 else 0
+            else:
+                al["ssl"] = gen.sl(-m - 1, m + 1)
+            if op == "setitem":
+                al["i"] = rng.randrange(-n, n) if n > 0 else 0
+            if op == "setslice":
+                al["sl"] = gen.sl(-n - 1, n + 1)
+                if rng.random() < 0.7:
+                    al["sl"][2] = None
+            steps.append(with_obs(al, gen, n))
+        elif r2 < 0.16:
+            cols = [f for f, _ in FIELDS[t]]
+            c = rng.randrange(1, len(cols))
+            steps.append(with_obs({"k": "foreign", "t": t, "ssl": gen.sl(-n - 1, n + 1), "i": rng.choice([-1, -1, 0, n]),
+                                   "data": [[cols[c], gen.val(FIELDS[t][c][1])]], "assign": rng.random() < 0.5}, gen, n))
         steps.append(with_obs(st, gen, n))
         # rough size tracking, only to aim the indices
         if st["k"] in ("append",):
@@ -680,6 +744,159 @@ def linebreak_cases():
                    "steps": [with_obs(json.loads(json.dumps(st)), gen, 4) for st in steps]}
 
 
+def alias_cases():
+    """deterministic block: the same Row object held at several positions / in several tables / by another
+    TestSuite, then an edit through one holder; rows are values, so every other holder must be unchanged"""
+    gen = Gen(__import__("random").Random(77))
+    S = lambda x: {"str": cps(x)}
+    I = lambda n: {"int": str(n)}
+    it = lambda i, x: [I(i), S(x), None]
+    nt = lambda i, x: [I(i), S(x)]
+    U = lambda col, v: [[col, S(v)]]
+    item3 = [it(1, "s1"), it(2, "s2"), it(3, "s3")]
+    note2 = [nt(1, "n1"), nt(2, "n2")]
+    tail = [{"k": "commit"}, {"k": "reopen"}]
+    hists = [
+        # a pending row appended a second time, then updated through the last position
+        [{"k": "append", "t": "item", "row": it(4, "p4")},
+         {"k": "alias", "t": "item", "src": "item", "op": "append", "si": -1},
+         {"k": "update", "t": "item", "i": -1, "data": U("i-input", "changed")}],
+        # ... and through the first holder
+        [{"k": "append", "t": "item", "row": it(4, "p4"), "form": "row"},
+         {"k": "alias", "t": "item", "src": "item", "op": "append", "si": 3},
+         {"k": "update", "t": "item", "i": 3, "data": U("i-input", "changed")},
+         {"k": "setitem", "t": "item", "i": -1, "row": it(9, "z")}],
+        # stored rows extended back into the table, then updates on the stored and on the new positions
+        [{"k": "alias", "t": "item", "src": "item", "op": "extend", "ssl": [0, 2, None]},
+         {"k": "update", "t": "item", "i": 0, "data": U("i-input", "u0")},
+         {"k": "update", "t": "item", "i": -1, "data": U("i-input", "u-1")},
+         {"k": "update", "t": "item", "i": 3, "data": [["i-id", I(77)]]}],
+        # pending rows extended again (same objects at 3,4 and 5,6), every edit kind on one holder
+        [{"k": "extend", "t": "item", "rows": [it(4, "p4"), it(5, "p5")], "form": "tuple"},
+         {"k": "alias", "t": "item", "src": "item", "op": "extend", "ssl": [3, 5, None]},
+         {"k": "update", "t": "item", "i": 3, "data": U("i-input", "u3")},
+         {"k": "update", "t": "item", "i": -1, "data": U("i-input", "u6")},
+         {"k": "setitem", "t": "item", "i": 4, "row": it(8, "new")},
+         {"k": "setslice", "t": "item", "sl": [5, 6, None], "rows": []}],
+        # item assignment / slice assignment with rows of the table itself
+        [{"k": "append", "t": "item", "row": it(4, "p4")},
+         {"k": "alias", "t": "item", "src": "item", "op": "setitem", "si": -1, "i": 0},
+         {"k": "update", "t": "item", "i": 0, "data": U("i-input", "u0")},
+         {"k": "alias", "t": "item", "src": "item", "op": "setslice", "ssl": [2, None, None], "sl": [1, 2, None]},
+         {"k": "update", "t": "item", "i": -1, "data": U("i-input", "ulast")},
+         {"k": "update", "t": "item", "i": 1, "data": U("i-input", "u1")}],
+        # the same Row object several times in one extend / slice assignment
+        [{"k": "extend", "t": "item", "rows": [it(4, "d"), it(4, "d"), it(4, "d")], "form": "row", "dup": True},
+         {"k": "update", "t": "item", "i": -2, "data": U("i-input", "mid")},
+         {"k": "setslice", "t": "item", "sl": [0, 2, None], "rows": [it(6, "e"), it(6, "e")], "form": "row", "dup": True},
+         {"k": "update", "t": "item", "i": 0, "data": U("i-input", "first")}],
+        # rows travel to the twin relation and back; edits and clear on one side
+        [{"k": "append", "t": "note", "row": nt(3, "p3")},
+         {"k": "alias", "t": "memo", "src": "note", "op": "extend", "ssl": [None, None, None]},
+         {"k": "update", "t": "memo", "i": -1, "data": U("n-text", "memo-edit")},
+         {"k": "update", "t": "note", "i": -1, "data": U("n-text", "note-edit")},
+         {"k": "alias", "t": "note", "src": "memo", "op": "append", "si": 0},
+         {"k": "update", "t": "note", "i": -1, "data": U("n-text", "back")},
+         {"k": "clear", "t": "note"},
+         {"k": "commit"},
+         {"k": "update", "t": "memo", "i": 0, "data": U("n-text", "after")}],
+        # another TestSuite takes the pending rows and edits its own table
+        [{"k": "extend", "t": "item", "rows": [it(4, "p4"), it(5, "p5")]},
+         {"k": "foreign", "t": "item", "ssl": [None, None, None], "i": -1, "data": U("i-input", "foreign"), "assign": True},
+         {"k": "foreign", "t": "item", "ssl": [3, None, None], "i": 3, "data": U("i-input", "foreign2")},
+         {"k": "update", "t": "item", "i": -1, "data": U("i-input", "mine")}],
+        # the caller keeps and changes its list objects; the same list object extended twice
+        [{"k": "extend", "t": "item", "rows": [it(4, "a"), it(5, "b")], "form": "list"},
+         {"k": "extend", "t": "item", "rows": [it(4, "a"), it(5, "b")], "form": "list", "same_obj": True, "mutate": True},
+         {"k": "update", "t": "item", "i": 3, "data": U("i-input", "u3")},
+         {"k": "setslice", "t": "item", "sl": [0, 1, None], "rows": [it(7, "x"), it(8, "y")], "form": "list", "mutate": True}],
+        # tuples, lists and Row objects as values of every writing operation
+        [{"k": "append", "t": "note", "row": nt(3, "t"), "form": "tuple"},
+         {"k": "append", "t": "note", "row": nt(4, "r"), "form": "row"},
+         {"k": "setitem", "t": "note", "i": 0, "row": nt(5, "r0"), "form": "row"},
+         {"k": "setitem", "t": "note", "i": 1, "row": nt(6, "t1"), "form": "tuple"},
+         {"k": "setslice", "t": "note", "sl": [None, None, -1], "rows": [nt(7, "a"), nt(8, "b"), nt(9, "c"), nt(10, "d")], "form": "row"},
+         {"k": "update", "t": "note", "i": 2, "data": U("n-text", "u2")}],
+    ]
+    for gz in (False, True):
+        for h in hists:
+            steps = [with_obs(json.loads(json.dumps(st)), gen, 5) for st in h + tail]
+            yield {"kind": "alias", "tables": {"item": {"init": item3, "gz": gz}, "note": {"init": note2, "gz": gz}},
+                   "steps": steps}
+
+
+def negstep_cases():
+    """deterministic block: negative steps with |step| >= 2 over spans the step does not divide, for reading
+    and for assignment, on stored rows, pending rows and a mix; and process() with the default buffer size
+    while non-output relations hold pending rows"""
+    gen = Gen(__import__("random").Random(22))
+    S = lambda x: {"str": cps(x)}
+    I = lambda n: {"int": str(n)}
+    nt = lambda i, x: [I(i), S(x)]
+    slices = [[None, None, -2], [3, 0, -2], [None, None, -3], [-1, -5, -2], [4, 0, -3], [3, None, -2], [None, 1, -2],
+              [-2, None, -2], [10, -10, -4], [2, 3, -2]]
+    for nstored, npend in ((4, 0), (5, 0), (2, 2), (0, 4), (3, 2)):
+        init = [nt(i + 1, "s%d" % (i + 1)) for i in range(nstored)]
+        pend = [nt(50 + i, "p%d" % i) for i in range(npend)]
+        n = nstored + npend
+        for gz in (False, True):
+            if gz and nstored == 0:
+                continue
+            steps = []
+            if pend:
+                steps.append({"k": "extend", "t": "note", "rows": pend})
+            for j, sl in enumerate(slices):
+                cnt = len(range(*slice(*sl).indices(n)))
+                rows = [nt(100 + 10 * j + q, "v%d.%d" % (j, q)) for q in range(cnt)]
+                st = {"k": "setslice", "t": "note", "sl": sl, "rows": rows}
+                steps.append(st)
+                if j % 4 == 3:
+                    steps.append({"k": "setslice", "t": "note", "sl": sl, "rows": rows + [nt(999, "extra")]})  # ValueError
+                    steps.append({"k": "commit"})
+            steps += [{"k": "commit"}, {"k": "reopen"}]
+            out = []
+            for st in steps:
+                st = with_obs(json.loads(json.dumps(st)), gen, n)
+                if "t" in st:
+                    st["qs"] = [{"t": "note", "q": "slice", "sl": q} for q in slices] + st["qs"][-1:]
+                out.append(st)
+            yield {"kind": "negstep", "tables": {"note": {"init": init, "gz": gz}}, "steps": out}
+    # default buffer size, pending rows in relations the mapper does not write
+    it = lambda i, x: [I(i), S(x), None]
+    script = [{"results": [{"result-id": I(0), "mrs": S("m")}, {"result-id": I(1), "mrs": S("n")}],
+               "run": {"run-id": I(1), "end": {"date": [2018, 6, 6, 12, 20, 49]}}}]
+    for gz in (False, True):
+        steps = [{"k": "append", "t": "item", "row": it(4, "pending item")},
+                 {"k": "append", "t": "note", "row": nt(3, "pending note")},
+                 {"k": "extend", "t": "memo", "rows": [nt(1, "m1"), nt(2, "m2")]},
+                 {"k": "append", "t": "parse", "row": [I(9), I(9), I(9), I(9), I(9), S("old")]},
+                 {"k": "process", "b": None, "gz": gz, "script": script},
+                 {"k": "commit"}, {"k": "commit"}, {"k": "reopen"}]
+        yield {"kind": "defaultbuffer",
+               "tables": {"item": {"init": [it(1, "a"), it(2, "b"), it(3, "c")], "gz": gz},
+                          "note": {"init": [nt(1, "n1"), nt(2, "n2")], "gz": gz}},
+               "steps": [with_obs(json.loads(json.dumps(st)), gen, 4) for st in steps]}
+
+
+def trim_obs(case):
+    """suite-level steps observe only the relations the history can touch (its stored relations, the targets
+    of its steps, their twins, and item + the processor's output relations if it processes)"""
+    used = set(case["tables"])
+    for st in case["steps"]:
+        for key in ("t", "src"):
+            if key in st:
+                used.add(st[key])
+        if st["k"] == "process":
+            used.update(AFFECTED)
+            used.add("item")
+    used.update(TWINS[n] for n in list(used) if n in TWINS)
+    for st in case["steps"]:
+        if "t" not in st:
+            st["ot"] = [n for n in st["ot"] if n in used]
+            st["qs"] = [q for q in st["qs"] if q["t"] in used]
+    return case
+
+
 def negindex_cases():
     """t[i] = row below -len (F31, fixed by d65eea1: must be an IndexError like a list)"""
     gen = Gen(__import__("random").Random(31))
@@ -696,6 +913,7 @@ def negindex_cases():
 class C10(Check):
     pid = "C10"
     quick_cases = 340
+    search_budget = {"quick": 200, "thorough": 5000}
     thorough_cases = 3000
     rule = ("one case = one history over a profile with six relations (item, note, parse, result, run, edge), "
             "0-6 initially stored rows per used relation, plain or gzip; rows carry a unique first cell and "
@@ -834,8 +1052,14 @@ class C10(Check):
 
     # ---- cases
     def cases(self, rng, tier, n):
+        for case in self._cases(rng, tier, n):
+            yield trim_obs(case)
+
+    def _cases(self, rng, tier, n):
         yield from negindex_cases()
         yield from linebreak_cases()
+        yield from alias_cases()
+        yield from negstep_cases()
         if tier == "quick":
             yield from exhaustive_cases(rng, 2)
         else:
@@ -853,9 +1077,9 @@ class C10(Check):
         for _ in range(n):
             r = rng.random()
             if r < 0.3:
-                yield process_case(rng)
+                yield trim_obs(process_case(rng))
             else:
-                yield random_history(rng, long=r > 0.8)
+                yield trim_obs(random_history(rng, long=r > 0.8))
 
     # ---- implementation
     def sim(self, case):
@@ -917,6 +1141,7 @@ class C10(Check):
             ts = itsdb.TestSuite(d)
             out = [self.observe(ts, d, {"ot": list(NAMES), "qs": []}, None)]
             out[0]["P"] = None
+            last_rows = None
             for st in case["steps"]:
                 k = st["k"]
                 calls = None
@@ -942,25 +1167,83 @@ class C10(Check):
                                 f = [trow(tsdb.split(line, cur_ts.schema[name])) for line in fh]
                             ph[name] = {"it": [trow(r) for r in t], "f": f, "tx": bool(t._in_transaction)}
                         phases.append(ph)
-                    res = guarded(lambda: ts.process(cpu, buffer_size=st["b"], gzip=st["gz"], callback=callback))
+                    if st["b"] is None:     # default buffer size
+                        res = guarded(lambda: ts.process(cpu, gzip=st["gz"], callback=callback))
+                    else:
+                        res = guarded(lambda: ts.process(cpu, buffer_size=st["b"], gzip=st["gz"], callback=callback))
                     calls = cpu.calls
                 else:
                     t = ts[st["t"]]
+                    form = st.get("form", "list")
+                    fields = t.fields
+
+                    def mk(vals, form=form, fields=fields):
+                        pv = [py_val(v) for v in vals]
+                        if form == "tuple":
+                            return tuple(pv)
+                        if form == "row" and len(pv) == len(fields):   # a Row cannot have the wrong width
+                            return itsdb.Row(fields, pv)
+                        return pv
+
+                    def mkrows(rows, st=st, mk=mk):
+                        if st.get("dup") and rows:
+                            one = mk(rows[0])
+                            return [one for _ in rows]          # the SAME object at several positions
+                        return [mk(r) for r in rows]
+                    passed = None
                     if k == "append":
-                        res = guarded(lambda: t.append([py_val(v) for v in st["row"]]))
+                        res = guarded(lambda: t.append(mk(st["row"])))
                     elif k == "extend":
-                        res = guarded(lambda: t.extend([[py_val(v) for v in r] for r in st["rows"]]))
+                        if st.get("same_obj") and last_rows is not None:
+                            built = {"ok": last_rows}
+                        else:
+                            built = guarded(lambda: mkrows(st["rows"]))
+                        passed = built.get("ok")
+                        res = guarded(lambda: t.extend(passed)) if passed is not None else built
+                        last_rows = passed
                     elif k == "setitem":
-                        res = guarded(lambda: t.__setitem__(st["i"], [py_val(v) for v in st["row"]]))
+                        res = guarded(lambda: t.__setitem__(st["i"], mk(st["row"])))
                     elif k == "setslice":
-                        res = guarded(lambda: t.__setitem__(sl_of(st["sl"]),
-                                                            [[py_val(v) for v in r] for r in st["rows"]]))
+                        built = guarded(lambda: mkrows(st["rows"]))
+                        passed = built.get("ok")
+                        res = guarded(lambda: t.__setitem__(sl_of(st["sl"]), passed)) if passed is not None else built
                     elif k == "update":
                         res = guarded(lambda: t.update(st["i"], {c: py_val(v) for c, v in st["data"]}))
                     elif k == "clear":
                         res = guarded(t.clear)
+                    elif k == "alias":
+                        src = ts[st["src"]]
+                        got = guarded(lambda: src[st["si"]] if "si" in st else src[sl_of(st["ssl"])])
+                        if "err" in got:
+                            res = got
+                        elif st["op"] == "append":
+                            res = guarded(lambda: t.append(got["ok"]))
+                        elif st["op"] == "setitem":
+                            res = guarded(lambda: t.__setitem__(st["i"], got["ok"]))
+                        elif st["op"] == "extend":
+                            res = guarded(lambda: t.extend(got["ok"]))
+                        else:
+                            res = guarded(lambda: t.__setitem__(sl_of(st["sl"]), got["ok"]))
+                    elif k == "foreign":
+                        # another TestSuite takes Row objects of this one and edits them in ITS table
+                        other = itsdb.TestSuite(d)
+                        ot = other[st["t"]]
+                        guarded(lambda: ot.extend(t[sl_of(st["ssl"])]))
+                        guarded(lambda: ot.update(st["i"], {c: py_val(v) for c, v in st["data"]}))
+                        if st.get("assign"):
+                            guarded(lambda: ot.__setitem__(-1, t[-1]))
+                            guarded(lambda: ot.update(-1, {c: py_val(v) for c, v in st["data"]}))
+                        guarded(ot.clear)
+                        res = {"ok": None}
                     else:
                         raise ValueError(k)
+                    if st.get("mutate") and isinstance(passed, list):
+                        # the caller keeps using its own list objects afterwards
+                        for r in passed:
+                            if isinstance(r, list) and r:
+                                r[0] = 987654
+                        passed.append([1, 2, 3, 4, 5, 6, 7])
+                        passed[0] = None
                 o = self.observe(ts, d, st, res.get("err"))
                 o["P"] = None
                 if calls is not None:
@@ -1005,7 +1288,7 @@ class C10(Check):
         steps = []
         for st in case["steps"]:
             k = st["k"]
-            m = {"k": k, "ot": [TINDEX[n] for n in st.get("ot", [])]}
+            m = {"k": k, "ot": sorted(TINDEX[n] for n in st.get("ot", []))}
             if "t" in st:
                 m["t"] = TINDEX[st["t"]]
                 name = st["t"]
@@ -1026,8 +1309,16 @@ class C10(Check):
                     else:
                         cols.append([WIDTH[name] + 7, 0])
                 m["cols"] = cols
+            if k == "alias":
+                m["op"] = st["op"]
+                m["src"] = TINDEX[st["src"]]
+                for key in ("si", "ssl", "i", "sl"):
+                    if key in st:
+                        m[key] = st[key]
+            if k == "foreign":
+                m = {"k": "noop", "ot": m["ot"]}
             if k == "process":
-                m["b"] = st["b"]
+                m["b"] = 1000 if st["b"] is None else st["b"]      # TestSuite.process default (pinned: c10Defaults)
                 m["gz"] = st["gz"]
                 m["script"] = [{"top": sdict({key: t[key] for key in t if key not in ("results", "run", "chart")}),
                                 "results": [sdict(r) for r in t["results"]] if "results" in t else None,
@@ -1092,7 +1383,7 @@ class C10(Check):
             if k == "extend" or k == "setslice":
                 for r in st["rows"]:
                     add(name, r)
-            if k == "update":
+            if k == "update" or k == "foreign":
                 for c, v in st["data"]:
                     if c in COLIDX[name]:
                         addv(v)
@@ -1258,8 +1549,11 @@ class C10(Check):
                                         "pos" if s > 0 else "neg"))
             if st["k"] == "process":
                 p = len(info["produced"] or [])
-                inc("process_buffer:" + ("0" if st["b"] == 0 else "lt_produced" if st["b"] < p else
-                                         "eq_produced" if st["b"] == p else "gt_produced"))
+                bsz = 1000 if st["b"] is None else st["b"]
+                if st["b"] is None:
+                    inc("process_buffer_default")
+                inc("process_buffer:" + ("0" if bsz == 0 else "lt_produced" if bsz < p else
+                                         "eq_produced" if bsz == p else "gt_produced"))
                 inc("process_gzip:%s" % st["gz"])
                 if info.get("aborted"):
                     inc("process_response_without_results")
